@@ -60,13 +60,14 @@ package generator
 //@ spec trailer(f model.Function) string =
 //@     cond(f.RetError || f.DstVarStyle == model.DstVarReturn, "\nreturn\n", "") + "}\n\n"
 //@ spec docLines(cs []string, k int) string = cond(k <= 0, "", docLines(cs, k-1) + cs[k-1] + "\n")
-//@ spec funcText(f model.Function) string =
+//@ spec opaque funcText(f model.Function) string =
 //@     docLines(f.Comments, len(f.Comments)) + header(f) + "{\n" + body(f) + trailer(f)
 //@
 //@ func (*Generator).FuncToString(g, f) (r)
 //@   requires model.wfContents(f.Assignments)
 //@   split f.DstVarStyle == model.DstVarArg, f.DstVarStyle == model.DstVarReturn, f.Receiver == "", f.RetError, f.Dst.Pointer, f.PreProcess == nil, f.PostProcess == nil
-//@   ensures {C08,C10,C07,C02,C01,C03,C11} r == funcText(*f)
+//@   ensures {C08,C10,C07,C02,C01,C03,C11,C17,C13} r == funcText(*f)
+//@   reveal funcText
 //@   loop 1 invariant sb.String() == docLines(f.Comments, $k) && $k <= len(f.Comments)
 //@   loop 2 invariant $k <= len(f.AdditionalArgs)
 //@   loop 2 invariant sb.String() == docLines(f.Comments, len(f.Comments)) + "func " + recvText(*f) + f.Name + "(" + fixedParams(*f) + argsPrefix(f.AdditionalArgs, $k, f.DstVarStyle == model.DstVarArg || f.Receiver == "")
@@ -76,3 +77,36 @@ package generator
 //@ spec fixedParams(f model.Function) string =
 //@     cond(f.DstVarStyle == model.DstVarArg, f.Dst.Name + " *" + f.Dst.Type + cond(f.Receiver == "", ", ", ""), "") +
 //@     cond(f.Receiver == "", f.Src.Name + " " + model.fullType(f.Src), "")
+
+// ---- whole file (C11, C17, C13) and the write (C15, C18, C12, C01) -----------------------------------
+
+//@ spec funcsText(fs []*model.Function, k int) string = cond(k <= 0, "", funcsText(fs, k-1) + funcText(*fs[k-1]))
+//@ spec substituted(code string, blocks []model.FunctionsBlock, k int) string =
+//@     cond(k <= 0, code, strReplace(substituted(code, blocks, k-1), blocks[k-1].Marker,
+//@                                   funcsText(blocks[k-1].Functions, len(blocks[k-1].Functions)), 1))
+//@ spec wfFuncs(fs []*model.Function) bool = forall(j, 0, len(fs), fs[j] != nil && model.wfContents(fs[j].Assignments))
+//@ spec wfBlocks(bs []model.FunctionsBlock) bool = forall(i, 0, len(bs), wfFuncs(bs[i].Functions))
+//@ spec fileHeader() string = "// Code generated by github.com/reedom/convergen\n// DO NOT EDIT.\n\n"
+//@
+//@ func (*Generator).generateContent(g) (content, err)
+//@   requires wfBlocks(g.code.FunctionBlocks)
+//@   ensures {C11,C17,C13,C08} err == nil
+//@   ensures {C11,C17,C13,C08} string(content) == fileHeader() + substituted(g.code.BaseCode, g.code.FunctionBlocks, len(g.code.FunctionBlocks))
+//@   loop 1 invariant $k <= len(g.code.FunctionBlocks)
+//@   loop 1 invariant code == substituted(g.code.BaseCode, g.code.FunctionBlocks, $k)
+//@   loop 2 invariant $k <= len(block.Functions)
+//@   loop 2 invariant sb.String() == funcsText(block.Functions, $k)
+//@
+//@ func (*Generator).Generate(g, outPath, output, dryRun) (r, err)
+//@   requires wfBlocks(g.code.FunctionBlocks)
+//@   effects fs-read, stdout, fs-write
+//@   ensures {C15,C12} $fsw.n <= old($fsw.n) + 1
+//@   ensures {C15,C18} dryRun ==> $fsw.n == old($fsw.n)
+//@   ensures {C15,C18,C12} $fsw.n == old($fsw.n) + 1 ==> $fsw.path[old($fsw.n)] == outPath
+//@   ensures {C15,C18,C12,C01} $fsw.n == old($fsw.n) + 1 && err == nil ==> $fsw.data[old($fsw.n)] == r
+//@   ensures {C15,C18} err == nil && !dryRun ==> $fsw.n == old($fsw.n) + 1
+//@   ensures {C15,C01} err != nil && $fsw.n != old($fsw.n) ==> hasPrefix(errmsg(err), "error on writing to the file.")
+//@   ensures {C15} forall(i, 0, old($fsw.n), $fsw.path[i] == old($fsw.path[i]) && $fsw.data[i] == old($fsw.data[i]))
+//@   ensures {C18} err == nil && output ==> $out.n == old($out.n) + 1 && $out.data[old($out.n)] == string(r) + "\n"
+//@   ensures {C18} err == nil && !output ==> $out.n == old($out.n)
+//@   ensures {C01,C15} err != nil ==> r == nil
